@@ -350,7 +350,7 @@ def _c12_check(ctx):
     for txt, r, raw in res:
         if r is None:
             raise C.CheckError("concdrive failed: " + raw)
-        pts = [e["point"] for e in r["events"]]
+        pts = [e["point"] for e in (r["events"] or [])]
         if "store.flushTick.beforeWait" in pts:
             waited += 1
             nontriv.add(txt)
@@ -371,6 +371,131 @@ def _c12_check(ctx):
                                    "(index lookup, primary put, flushTick after measuring / before waiting, commit after the index flush, Flush after commit) in a random order of 8-40 steps; "
                                    "then all run freely while the controller keeps calling Flush every 2 ms; verdict: every call returns within 1.5 s; non-trivial = a writer reached the wait"}
 
+def _parse_scn(txt):
+    setup, threads = [], []
+    imm = False
+    for l in txt.split("\n"):
+        f = l.split()
+        if not f:
+            continue
+        if f[0] == "cfg":
+            imm = "imm=1" in f
+        if f[0] == "setup":
+            setup.append({"op": f[1], "key": f[2] if len(f) > 2 else "", "val": ("" if len(f) < 4 or f[3] in ("-", "nil") else f[3])})
+    return setup, imm
+
+# keys of one bucket (bits=8: first digest byte 7) sharing 2-3 leading bytes
+CKEYS = ["120607070701010a", "120607070702020b", "120607070701020c", "120607070801010d", "12060707070102ee"]
+
+def _conc_scenarios(rng, n, gc):
+    scen = []
+    for _ in range(n):
+        keys = rng.sample(CKEYS, rng.randint(2, 4))
+        vals = ["61", "6262", "636363", "-", "6464646464646464"]
+        setup = []
+        pmax = rng.choice((60, 100, 1048576)) if gc else 1048576
+        imax = rng.choice((64, 100, 1048576)) if gc else 1048576
+        for k in keys:
+            r = rng.random()
+            if r < 0.6:
+                setup.append("setup put %s %s" % (k, rng.choice(vals)))
+        if setup and rng.random() < 0.7:
+            setup.append("setup flush")
+        if gc:
+            # garbage for the collectors: overwrites and removals that are flushed
+            for k in rng.sample(CKEYS, 3):
+                if k not in keys:
+                    setup += ["setup put %s %s" % (k, rng.choice(vals)), "setup flush", "setup put %s %s" % (k, "7a7a7a7a7a7a7a7a7a7a"), "setup flush"]
+            if rng.random() < 0.5:
+                setup.append("setup pgc %d" % rng.randint(20, 90))
+        writers = set()
+        th = []
+        for i in range(rng.randint(2, 4)):
+            k = rng.choice(keys)
+            kind = rng.choice(("put", "put", "get", "get", "has", "size", "remove", "flush"))
+            if kind in ("put", "remove"):
+                cand = [x for x in keys if x not in writers]
+                if not cand:
+                    kind = "get"
+                else:
+                    k = rng.choice(cand)
+                    writers.add(k)
+            if kind == "put":
+                th.append(("T%d" % i, "put %s %s" % (k, rng.choice(vals))))
+            elif kind == "flush":
+                th.append(("T%d" % i, "flush"))
+            else:
+                th.append(("T%d" % i, "%s %s" % (kind, k)))
+        if gc:
+            th.append(("G1", rng.choice(("pgc %d" % rng.randint(20, 90), "igc 1", "igc 0"))))
+            if rng.random() < 0.4:
+                th.append(("G2", rng.choice(("pgc %d" % rng.randint(20, 90), "igc 1"))))
+            if rng.random() < 0.6 and not any(t[1] == "flush" for t in th):
+                th.append(("F1", "flush"))
+        names = [t[0] for t in th]
+        sched = [rng.choice(names) for _ in range(rng.randint(6, 45))]
+        limited = rng.random() < 0.25      # rate-limited writers: "every call returns" also on the waiting path
+        scen.append("cfg bits=8 imax=%d pmax=%d timeout_ms=3000%s\n" % (imax, pmax, " burst=1 rate=1e-9" if limited else "") + "\n".join(setup) + ("\n" if setup else "") +
+                    "".join("thread %s %s\n" % t for t in th) + "schedule " + " ".join(sched) + "\n" + ("free flush\n" if limited or rng.random() < 0.5 else ""))
+    return scen
+
+def _lin_check(ctx, gc):
+    from . import lin
+    prop, tier, wd, rng = ctx["prop"], ctx["tier"], ctx["wd"], ctx["rng"]
+    C.go_build(["concdrive"])
+    n = 250 if tier == "quick" else 8000
+    known = [k for k in load_known() if k.get("status") == "known" and k.get("property") == prop and str(k.get("witness", "")).startswith("scn:")]
+    scen, names = [], []
+    cdir = os.path.join(C.VERIF, "corpus", prop)
+    if os.path.isdir(cdir):
+        for fn in sorted(os.listdir(cdir)):
+            if fn.endswith(".scn"):
+                scen.append(open(os.path.join(cdir, fn)).read()); names.append(fn)
+    if ctx.get("replay") and ctx["replay"].endswith(".scn"):
+        scen, names, n = [open(ctx["replay"]).read()], [os.path.basename(ctx["replay"])], 0
+    gen_s = _conc_scenarios(rng, n, gc)
+    scen += gen_s; names += [None] * len(gen_s)
+    res = run_conc(scen, wd, "lin")
+    viol, nontriv, interleaved = [], set(), 0
+    for (txt, r, raw), nm in zip(res, names):
+        if r is None:
+            raise C.CheckError("concdrive failed: " + raw)
+        setup, imm = _parse_scn(txt)
+        bad = None
+        if r["stuck"]:
+            bad = "call(s) %s never returned" % r["stuck"]
+        else:
+            bad = lin.check(setup, r["threads"], r["final"], imm)
+        # interleaving actually happened: two threads' events alternate
+        seq = [e["t"] for e in (r["events"] or [])]
+        switches = sum(1 for a, b in zip(seq, seq[1:]) if a != b)
+        if switches >= 3:
+            nontriv.add(txt); interleaved += 1
+        if bad:
+            kf = [k for k in known if nm and k["witness"] == "scn:" + nm]
+            if kf:
+                print("KNOWN-FINDING: property=%s %s" % (prop, kf[0]["what"]))
+                continue
+            if len(viol) < 3:
+                rp = C.save_replay(prop, "sched-%s.scn" % hashlib.sha1(txt.encode()).hexdigest()[:10], "# %s fails on the implementation: %s\n# replay: cd /verif && ./check %s --replay <this file>\n%s" % (prop, bad, prop, txt))
+                viol.append(("schedule: " + bad, rp, True))
+        elif nm and any(k["witness"] == "scn:" + nm for k in known):
+            pass  # a recorded finding that no longer fails: nothing to report
+    return viol, {"evaluations": len(scen), "distinct_nontrivial": len(nontriv), "scenarios_with_real_interleaving": interleaved,
+                  "samples": [{"scenario": scen[-1].strip().split("\n")}],
+                  "schedule_rule": "2-4 calls (Put/Get/Has/GetSize/Remove/Flush" + (" + 1-2 GC cycles (primary / index) over flushed garbage in small files" if gc else "") +
+                                   ") on 2-4 keys of one bucket sharing leading bytes, no two concurrent writers of one key, stepped through the yield points in a random order of 6-45 steps, "
+                                   "then run freely; oracle: no call fails or hangs, some linearization consistent with the real-time order explains every result AND the final contents; "
+                                   "non-trivial = >= 3 switches between threads in the observed event sequence"}
+
+CHECKS["C05"] = Spec(
+    prop_file="C05.v",
+    weights=None,
+    witnesses=["F9-lost-wakeup"],
+    tools=["witness", "concdrive"],
+    rule="see schedule_rule",
+    extra=lambda ctx: _lin_check(ctx, False),
+)
 CHECKS["C12"] = Spec(
     prop_file="C12.v",
     weights=None,
